@@ -27,4 +27,6 @@ import "context"
 func VerifReferrersState(r *Repository) int { return int(r.loadReferrersState()) }
 
 // VerifPingReferrers re-exports pingReferrers.
-func VerifPingReferrers(ctx context.Context, r *Repository) (bool, error) { return r.pingReferrers(ctx) }
+func VerifPingReferrers(ctx context.Context, r *Repository) (bool, error) {
+	return r.pingReferrers(ctx)
+}
